@@ -297,3 +297,33 @@ func H_C01_jsonnumber() {
 	checkC01(leavesC01(sel, op, lit), d, m, nil, nil)
 	vCover("reached")
 }
+
+// H_C01_nested: nested quantifiers whose inner collection / body is reached
+// through the outer binding (alias rewriting), on the shapes that have two levels.
+func H_C01_nested() {
+	vc := []int{nScalarsC01 + 0, nScalarsC01 + 3, nScalarsC01 + 9, nScalarsC01 + 5}[vChoose(4)]
+	xv, xm := valueC01(vc)
+	d := map[string]interface{}{"x": xv, "y": int8(1)}
+	m := &rv{kind: rvMap, keys: []string{"x", "y"}, vals: []*rv{xm, {kind: rvInt, i: 1}}}
+	op := vChoose(8)
+	lit := litsC01[vChoose(2)]
+	V := leavesC01("v", op, lit)
+	F := leavesC01("f", op, lit)
+	t := []string{
+		`any x as e { any e as f { F } }`, `any x as e { any e as _, v { V } }`, `all x as e { any e as k, v { V and k != "zz" } }`,
+		`any x as e { (all e as k, _ { k != "zz" }) and e.a == "1" }`, `all x as i, e { any e as _, v { V or i == 7 } }`, `any x as v { any v as _, v { V } }`,
+	}[vChoose(6)]
+	expr := ""
+	for i := 0; i < len(t); i++ {
+		switch t[i] {
+		case 'V':
+			expr += V
+		case 'F':
+			expr += F
+		default:
+			expr += t[i : i+1]
+		}
+	}
+	checkC01(expr, d, m, nil, nil)
+	vCover("reached")
+}
